@@ -3,7 +3,7 @@
    logarithmic in d_max / d_low; with that much inner fuel and max_it outer fuel neither loop of the model runs out of
    fuel, for any cost function. *)
 From Coq Require Import Reals Lra List Bool ZArith Lia.
-From Adept Require Import Scalar Minim MinimProofs ExprReal MinimReal.
+From Adept Require Import Scalar Minim MinimProofs RealOps MinimReal.
 Import ListNotations.
 Local Open Scope R_scope.
 
